@@ -67,6 +67,7 @@ func init() {
 	}
 	noAs2 := func(m map[string]int) map[string]int { m["as2"] = 0; return m }
 	auxnil := func(m map[string]int) map[string]int { m["auxnil"] = 1; return m }
+	with2 := func(m map[string]int, k string, v int) map[string]int { m[k] = v; return m }
 	histCov := []string{"built", "history_done"}
 	buildCov := []string{"built", "build_failed", "model_valid"}
 	properties = append(properties,
@@ -75,6 +76,7 @@ func init() {
 			h("cont.H_Hist", hist(2, 2, 3, 0, 1), hist(2, 2, 4, 1, 2), histCov, 0, histDesc),
 			h("cont.H_Hist", hist(1, 2, 2, 0, 2), hist(1, 3, 3, 1, 2), histCov, 0, histDesc),
 			h("cont.H_Hist", auxnil(hist(4, 2, 3, 0, 2)), auxnil(hist(4, 2, 4, 1, 2)), histCov, 0, histDesc+"; multi-output forms, with a symbolic mask of multi-return constructors whose second output is a nil pointer (a value like any other: stored once, handed out as such)"),
+			h("cont.H_Hist", with2(hist(3, 2, 3, 0, 1), "singleton_init", 1), with2(hist(3, 2, 4, 1, 2), "singleton_init", 1), histCov, 0, histDesc+"; initializer profile where a function without a service result may also be registered as a singleton: it runs exactly once, at Build, never again at scope creation"),
 			h("cont.H_Instances", map[string]int{"order_schemes": 2}, map[string]int{"order_schemes": 4}, []string{"replaced", "resolved"}, 20, "2..3 values of ONE Go type registered as instances under symbolic identities (unkeyed, distinct names, members of one group), optionally one removed and replaced by a new value before Build; every identity resolved twice from the provider, a scope and a nested scope and injected into a scoped consumer (keyed fields and a group field): always exactly the value registered for it, group members in registration order, a removed value never again"),
 		}},
 		propertySpec{ID: "C02", Harnesses: []harnessSpec{
